@@ -69,6 +69,12 @@ func collectFields(reqCtx *OperationContext, selSet ast.SelectionSet, satisfies 
 			}
 
 		case *ast.FragmentSpread:
+			// A spread that is skipped must not count as a visit: a later spread of the
+			// same fragment that is not skipped still has to be collected.
+			if !shouldIncludeNode(sel.Directives, reqCtx.Variables) {
+				continue
+			}
+
 			fragmentName := sel.Name
 			if _, seen := visited[fragmentName]; seen {
 				continue
@@ -85,9 +91,6 @@ func collectFields(reqCtx *OperationContext, selSet ast.SelectionSet, satisfies 
 				continue
 			}
 
-			if !shouldIncludeNode(sel.Directives, reqCtx.Variables) {
-				continue
-			}
 			shouldDefer, label := deferrable(sel.Directives, reqCtx.Variables)
 
 			for _, childField := range collectFields(reqCtx, fragment.SelectionSet, satisfies, visited) {
